@@ -28,7 +28,7 @@ void Net::close(const StreamPtr& s) {
     if (s->write_parked) complete_write(s, asio::error::operation_aborted, 0);   // (logged like every other write completion)
     if (s->shutdown_parked) complete_shutdown(s, asio::error::operation_aborted);
     if (s->conn >= 0 && !conns[s->conn].client_closed) { conns[s->conn].client_closed = true; if (broker) broker->on_client_close(s->conn); }
-    if (s->open || s->connected) { note("close stream " + std::to_string(s->id)); if (s->closed_ns < 0) s->closed_ns = vclock::now_ns(); }
+    if (s->open || s->connected) { note("close stream " + std::to_string(s->id)); if (s->closed_ns < 0) { s->closed_ns = vclock::now_ns(); s->closed_after_stop = stop_marker; } }
     s->open = false; s->connected = false;
 }
 
@@ -93,7 +93,7 @@ void Net::complete_connect(const StreamPtr& s, error_code ec) {
         conns.push_back(c); s->conn = c.id;
         note("connect ok stream " + std::to_string(s->id) + " conn " + std::to_string(c.id));
         if (broker) broker->on_open(c.id);
-    } else { note("connect fail stream " + std::to_string(s->id) + " " + ec.message()); s->connect_failed = true; }
+    } else { note("connect fail stream " + std::to_string(s->id) + " " + ec.message()); s->connect_failed = (ec != asio::error::operation_aborted); }   // aborted = given up by the client itself (close / destruction), not a failure of the attempt
     s->connect_done_ns = vclock::now_ns();
     post_handler(*this, s->ex, std::move(h), ec);
     s->connect_w.reset();
